@@ -1039,7 +1039,7 @@ fn apply_call(shared: &Shared, id: u64, fused: bool) {
     };
     let method = w.calls[idx].method.clone();
     let params = w.calls[idx].params.clone();
-    if method == "datastore" {
+    if method == "datastore" || method == "deldatastore" {
         // the stored record is being rewritten: a fabricated age no longer describes it
         if let Some(i) = w.calls[idx].hidx {
             w.aged_hashes.retain(|(h, _)| *h != i);
@@ -1047,6 +1047,7 @@ fn apply_call(shared: &Shared, id: u64, fused: bool) {
     }
     let res: Option<crate::node::RpcResult> = match method.as_str() {
         "datastore" => Some(w.node.datastore(&params)),
+        "deldatastore" => Some(w.node.deldatastore(&params)),
         "listdatastore" => Some(w.node.listdatastore(&params)),
         "listsendpays" => Some(w.node.listsendpays(&params)),
         "getinfo" => Some(w.node.getinfo()),
